@@ -34,6 +34,7 @@ var verifPairNames = []string{
 	19: "IsBackendHealthy (expiry) || MarkBackendUnhealthy (fresh ejection)",
 	20: "ServeHTTP || ServeHTTP (same backend)",
 	21: "RecordRequest/RecordResponse || GetMetrics",
+	22: "ListBackends || MarkBackendUnhealthy (after an expired window)",
 }
 
 // VerifC12Pair runs two operations of the Helios-owned shared state
@@ -135,6 +136,15 @@ func VerifC12Pair(pair int) {
 	case 20:
 		VerifC13Interleaved()
 		return
+	case 22:
+		// admin read racing an ejection, on a backend whose earlier window has expired
+		lb := verifBareLB(0)
+		lb.metricsCollector = metrics.NewMetricsCollector()
+		bs := verifPool(lb, 9, 2, false)
+		lb.MarkBackendUnhealthy(bs[0], time.Second)
+		verifrt.Advance(2 * time.Second)
+		verifrt.Go(func() { lb.ListBackends() })
+		verifrt.Go(func() { lb.MarkBackendUnhealthy(bs[0], time.Minute) })
 	case 21:
 		mc := metrics.NewMetricsCollector()
 		verifrt.Go(func() { mc.RecordRequest(); mc.RecordResponse(true, time.Millisecond); mc.RecordRateLimitedRequest() })
